@@ -442,7 +442,8 @@ voc_write_header (SF_PRIVATE *psf, int calc_length)
 	{	psf->filelength = psf_get_filelen (psf) ;
 
 		psf->datalength = psf->filelength - psf->dataoffset ;
-		if (psf->dataend)
+		/* An end of data offset behind the end of the file is stale (SFC_FILE_TRUNCATE). */
+		if (psf->dataend > 0 && psf->dataend < psf->filelength)
 			psf->datalength -= psf->filelength - psf->dataend ;
 
 		psf->sf.frames = psf->datalength / (psf->bytewidth * psf->sf.channels) ;
@@ -554,6 +555,9 @@ voc_close	(SF_PRIVATE *psf)
 		**	as audio data, and do not append a second terminator to a
 		**	file that was opened SFM_RDWR and did not grow.
 		*/
+		if (psf->bytewidth > 0)
+			psf->dataend = psf->dataoffset + psf->sf.frames * psf->bytewidth * psf->sf.channels ;
+
 		if (psf->dataend > 0)
 			psf_fseek (psf, psf->dataend, SEEK_SET) ;
 		else
